@@ -38,7 +38,7 @@ func (e Event) String() string {
 type Recorder struct {
 	Events  []Event
 	OnEvent func(seq int, e *Event) // called before the event takes effect (cancellation instants)
-	Limit   int                   // step cap; exceeded => panic(stepCapExceeded)
+	Limit   int                     // step cap; exceeded => panic(stepCapExceeded)
 	occ     map[string]int
 }
 
@@ -77,7 +77,7 @@ func (r *Recorder) Fingerprint() string {
 
 // Fault is one planned fault: the k-th occurrence of (Op, Path) fails with Kind.
 type Fault struct {
-	Op   string `json:"op"`   // stat | open | readdir | fstat | read | readdirall
+	Op   string `json:"op"` // stat | open | readdir | fstat | read | readdirall
 	Path string `json:"path"`
 	K    int    `json:"k"`    // 1-based occurrence of (op,path) in the run
 	Kind string `json:"kind"` // perm | notexist | eio | eio-partial (read only)
@@ -87,11 +87,11 @@ func (f Fault) Site() string { return fmt.Sprintf("%s|%s|%d", f.Op, f.Path, f.K)
 
 // DiskPlan is every decision the simulated disk takes during a run.
 type DiskPlan struct {
-	Chunk        int     `json:"chunk"`                   // max bytes per Read; 0 = whole buffer
-	EOFWithData  bool    `json:"eof_with_data,omitempty"` // final Read returns n>0 together with io.EOF
-	NoReadDirFile bool   `json:"no_readdirfile,omitempty"`// directory handles do not implement fs.ReadDirFile
-	LatencyMs    int     `json:"latency_ms,omitempty"`    // simulated latency per operation (needs a synctest bubble)
-	Faults       []Fault `json:"faults,omitempty"`
+	Chunk         int     `json:"chunk"`                    // max bytes per Read; 0 = whole buffer
+	EOFWithData   bool    `json:"eof_with_data,omitempty"`  // final Read returns n>0 together with io.EOF
+	NoReadDirFile bool    `json:"no_readdirfile,omitempty"` // directory handles do not implement fs.ReadDirFile
+	LatencyMs     int     `json:"latency_ms,omitempty"`     // simulated latency per operation (needs a synctest bubble)
+	Faults        []Fault `json:"faults,omitempty"`
 }
 
 // SimFS implements scalibrfs.FS over a Node tree.
